@@ -54,6 +54,71 @@ SPEC = {
     ("C12_merge_terminates", "merge_terminates", "the recursive in-place merge terminates within the model's fuel bound"),
     ("C12_builder_total", "build_expr_total", "hence the builder never gives up: every pattern gets an automaton"),
     ("C12_items_fit", "items_length_bound", "a duplicate-free list of well-formed items is no longer than the item address space")]),
+
+ "C06": ("Parsing any byte string is memory-safe and terminates (index logic and bookkeeping; see DESIGN.md for the C++-level remainder)",
+   ["Ctpg.Valid.LRSafe", "Ctpg.Proofs.DriverBasics", "Ctpg.Proofs.SafeBasics", "Ctpg.Proofs.SafeDriver", "Ctpg.Proofs.SafeTerm", "Ctpg.Proofs.SafeDfa", "Ctpg.Proofs.DriverPos", "Ctpg.Proofs.BuilderTerm"],
+   [("C06_no_out_of_range_access", "no_crash_safe_ok", "every unchecked array/stack access of the driver (table row and column, rule_infos, erase/back/pop on the stacks, the goto after a reduction, the lexeme extent) is in range: the run never ends in Crash, for any input, options, stack capacity, functors, also through error recovery"),
+    ("C06_table_indices_any_table", "no_crash_table_wf", "the table / rule_infos indices alone are in range for any dimensionally well-formed table, conflicts included"),
+    ("C06_positions_stay_inside_the_buffer", "run_pos", "the cursor and the lexeme end never leave the buffer"),
+    ("C06_matcher_never_out_of_range_on_any_pattern", "built_dfa_no_oob_total", "the automaton built for ANY pattern is never indexed out of range by the matcher on ANY string (although the builder is semantically wrong on some patterns)"),
+    ("C06_matcher_reads_each_byte_once", "dfa_match_reads_prefix", "the matcher reads a prefix of the input, left to right, each element at most once"),
+    ("C06_matcher_length_within_input", "dfa_match_len_le", "the recognised length never exceeds the input"),
+    ("C06_terminates_on_accepted_inputs", "accepted_fuel_exact", "an accepted parse takes exactly length(input) + nodes(tree) + 1 iterations"),
+    ("C06_terminates_after_an_error_without_error_rules", "error_run_terminates", "without error rules a reported error ends the parse within stack-height further iterations"),
+    ("C06_consume_mode_progress", "consume_progress", "every iteration in consume mode ends the run, leaves the mode or consumes one term"),
+    ("C06_recovery_mode_progress", "recovery_progress", "every iteration in recovery mode ends the run, pops one state, shifts the error symbol or reduces"),
+    ("C06_merge_terminates", "merge_terminates", "automaton construction: the recursive merge terminates")]),
+ "C07": ("Compile-time and run-time parsing agree, for every buffer kind (model part: the driver observes nothing of the buffer but its bytes, and the fixed stack capacity only through Throw)",
+   ["Ctpg.Proofs.DriverBasics", "Ctpg.Proofs.SafeBasics", "Ctpg.Proofs.SafeCap"],
+   [("C07_capacity_irrelevant", "capacity_irrelevant", "a parse whose stacks never exceed n gives the same result, final state and output with any fixed capacity above n as with unbounded stacks (cstring_buffer vs the other buffers)"),
+    ("C07_capacity_too_small_fails_loudly", "capacity_throw_or_same", "with a fixed capacity the run either equals the unbounded run or ends in Throw - never a different value"),
+    ("C07_too_small_is_throw", "capacity_too_small", "and it is Throw exactly when the unbounded run exceeds the capacity"),
+    ("C07_run_depends_only_on_what_it_is_given", "run_ext", "runs with extensionally equal lexers and functors are equal: nothing else is observed")]),
+ "C08": ("Error recovery follows the documented algorithm",
+   ["Ctpg.Spec.Recovery", "Ctpg.Proofs.DriverBasics", "Ctpg.Proofs.RecoveryRefines"],
+   [("C08_pop_phase", "pop_phase_refines", "on a syntax error the driver reports once and then discards exactly the states above the topmost one that accepts the error symbol (none if the top does), keeping everything below"),
+    ("C08_no_pop_when_top_accepts", "C08_no_pop_when_top_accepts", "discarding none if the current state already can"),
+    ("C08_keeps_lower_values", "C08_keeps_lower_values", "values of states that are not discarded are kept"),
+    ("C08_pops_only_rejecting_states", "C08_pops_only_rejecting_states", "every discarded state rejects the error symbol"),
+    ("C08_acting_on_the_error_symbol", "recovering_step", "in recovery mode an accepting top state performs exactly the table's action for the error symbol"),
+    ("C08_consume_phase", "consume_phase_refines", "after the shift, terms are discarded one at a time until the first one the parser can act on"),
+    ("C08_fails_iff", "C08_fails_iff", "recovery fails exactly when the stack is exhausted, the input ends while discarding, or the lexer fails"),
+    ("C08_one_report_per_error", "C08_one_report_per_error", "each error is reported once: between two reports the error symbol was shifted"),
+    ("C08_whole_run_refines_spec", "C08_refines_run", "whole runs: whatever the declarative specification predicts, the driver does"),
+    ("C08_whole_run_predicted_by_spec", "C08_run_predicted", "and whatever the driver does, the specification predicts")]),
+ "C09": ("Failures are reported once, at the right place, and never silently",
+   ["Ctpg.Proofs.DriverBasics", "Ctpg.Proofs.DriverPos", "Ctpg.Proofs.ReportOne", "Ctpg.Proofs.ReportLang", "Ctpg.Proofs.ReportLazy", "Ctpg.Proofs.ReportViable", "Ctpg.Proofs.ReportHalt", "Ctpg.Proofs.ReportCex", "Ctpg.Proofs.LRComplete"],
+   [("C09_one_message", "one_message_quiet", "without error rules a quiet parse writes nothing on success and exactly one message on failure"),
+    ("C09_one_message_any_verbosity", "one_message", "the same count among the verbose lines"),
+    ("C09_message_position_and_byte", "one_message_pos", "the message carries the true position, and Unexpected character names the byte at that position"),
+    ("C09_unexpected_character_stops_at_once", "unexpected_char_stops", "a lexical failure ends the parse immediately; it is the last line"),
+    ("C09_error_not_later_than_necessary", "error_not_later_than_necessary", "immediate error detection: when the syntax error names term a after prefix u, no sentence has the prefix u ++ [a] (and at end of input the input is not a sentence)"),
+    ("C09_lexer_not_consulted_beyond_the_offending_term", "syntax_error_lexer_lazy", "reported before any later input is examined"),
+    ("C09_reject_iff_not_in_language_for_halting_runs", "reject_iff_not_in_language_halting", "empty result exactly when the input is not in the language (for runs that halt; halting on every non-sentence is not proved)"),
+    ("C09_every_outcome", "tree_run_outcomes", "every outcome is: accepted with a derivation tree, rejected and not derivable, or out of fuel"),
+    ("C09_shifted_prefix_is_viable_partial", "shifted_prefix_viable_partial", "the 'not earlier' half for productive grammars: what has been shifted is a prefix of a sentence"),
+    ("C09_nonproductive_refuted", "shifted_prefix_not_viable", "REFUTED in general (known finding NP): a validated table can shift a term no sentence continues")]),
+ "C13": ("context_parse hands the caller's context to exactly the contextual functors",
+   ["Ctpg.Proofs.DriverBasics", "Ctpg.Proofs.DriverEval"],
+   [("C13_context_threaded_in_reduction_order", "run_tree_eval", "the context the caller gets back is the one threaded through the functor calls in post-order (reduction order); every call receives the context left by the previous call"),
+    ("C13_parse_equals_context_parse_when_context_is_ignored", "run_tree_eval_ctx_free", "functors that ignore the context ('>=') leave it untouched and the result does not depend on it"),
+    ("C13_same_calls_for_every_context_type", "run_same_path", "the sequence of reductions does not depend on the context or value types")]),
+ "C15": ("A parser object is immutable: parses are independent and thread-safe",
+   ["Ctpg.Model.FrameFacts", "Ctpg.Proofs.Conc"],
+   [("C15_frame_condition_holds_on_the_source", "frame_holds", "regenerated from ctpg.hpp on every run: every member function on the parse / diagnostics path is const, no mutable, const_cast, thread_local or non-const static data, library globals are constexpr, the custom lexer instance is a local"),
+    ("C15_schedule_independent", "schedule_independent", "after any interleaving each call is exactly where it would be after running alone for as many steps"),
+    ("C15_concurrent_result_is_isolated_result", "concurrent_result_is_isolated_result", "each call gets the result it would give in isolation"),
+    ("C15_history_independent", "history_independent", "earlier calls (accepted, failed, recovered) cannot influence a later one"),
+    ("C15_result_is_final", "result_is_final", "a finished call keeps its result whatever the others do")]),
+ "C19": ("Helper functors pick and forward exactly the documented positions",
+   ["Ctpg.Model.Helpers", "Ctpg.Proofs.HelpersCorrect"],
+   [("C19_element", "element_is_nth", "_eN returns the N-th right-side value for every arity"),
+    ("C19_element_reads_nothing_else", "element_reads_only_its_position", "and depends on no other argument"),
+    ("C19_construct", "construct_is_mk_nth", "construct<T,I> builds T from the I-th value"),
+    ("C19_append", "append_to_picks_C_and_A", "push_back<C,A> / emplace_back<C,A> append the A-th value to the C-th, container before or after the element"),
+    ("C19_append_reads_nothing_else", "append_to_reads_only_C_and_A", "and depend on no other argument"),
+    ("C19_val", "val_ignores_arguments", "val(v) returns v regardless of arguments"),
+    ("C19_create", "create_ignores_arguments", "create<T> returns a default T regardless of arguments")]),
  "C01g": None,
 }
 def coq_type(imports, lemma):
